@@ -362,7 +362,7 @@ def ec_healthy(r, c):
 def weak_multipliers(c):
   """(multiplier, description) list as documented for the weak-key forms."""
   out = []
-  for j in range(0, c.bits - 31, 8):
+  for j in range(0, c.bits - 24, 8):
     out.append((1 << j, "shift%d" % j))
   for j in range(2, c.bits // 32 + 1):
     out.append((sum(1 << (32 * i) for i in range(j)), "repeat%d" % j))
